@@ -129,6 +129,15 @@ def part1_cases():
                         'ndests': 1, 'wire_fault': fault, 'pos': 0})
             if fault.endswith('_arg') and ARITY[op] > 1:
                 out.append({'part': 1, 'op': op, 'nargs': ARITY[op], 'ndests': 1, 'wire_fault': fault, 'pos': ARITY[op] - 1})
+    # an Output / foreign wire as an argument: every op, every argument position, plain and Output destinations
+    for op in OPS:
+        if op == '@':
+            continue
+        ar = ARITY.get(op, 2)
+        for pos in range(ar):
+            for dk in ('wire', 'output') if op != 'r' else ('wire',):
+                for fault in ('output_arg', 'foreign_arg'):
+                    out.append({'part': 1, 'op': op, 'nargs': ar, 'ndests': 1, 'wire_fault': fault, 'pos': pos, 'dest_kind': dk})
     return out
 
 
@@ -154,6 +163,8 @@ def run_part1(case, ob, site):
     for i in range(nd):
         if op == 'r':
             w = pyrtl.Register(4, 'd%d' % i)
+        elif case.get('dest_kind') == 'output':
+            w = pyrtl.Output(4, 'd%d' % i)
         else:
             w = pyrtl.WireVector(4, 'd%d' % i)
         w.bitwidth = symw('wd%d' % i)
